@@ -11,7 +11,7 @@ import Zed.Model.ZsonGuard
   `(C02 analyze <scope> ast …)`            → `((ok T V)|(err e) …)` scope = stream | value
   `(C02 analyzeil (r ast) …)`              → like analyze, reader r ∈ ℕ has its own name table, all share one context
   `(C02 rt <scope> <persist> (T V) …)`     → `(ok|changed|(err e) …)` model round trip through a stream reader
-  `(C02 guard (T V))`                      → the theorem's guard: plain=b wfTy=b wfVal=b bareEmpty=b
+  `(C02 guard (T V))`                      → the theorem's guard: plain=b wfTy=b wfVal=b bareEmpty=b errOK=b
   `(C02 guardnamed (T V))`                 → 1 | 0: the guard of zson_roundtrip_value_named_top_partial (fresh formatter)
   `(C02 guardstream (T V) …)`              → 1 | 0: the guard of zson_roundtrip_stream_partial
   `(C02 fmttype T)`                        → type ast
@@ -315,7 +315,7 @@ def handle : List Sexp → String
     match decTV tv with
     | some (t, v) =>
       let b (x : Bool) := if x then "1" else "0"
-      s!"plain={b (plainTy t)} wfTy={b (wfTy t)} wfVal={b (wfVal t v)} bareEmpty={b (bareEmpty v)}"
+      s!"plain={b (plainTy t)} wfTy={b (wfTy t)} wfVal={b (wfVal t v)} bareEmpty={b (bareEmpty v)} errOK={b (errOK v)}"
     | none => "bad-op"
   | [.atom "guardnamed", tv] =>
     match decTV tv with
